@@ -1584,6 +1584,16 @@ class Rule(metaclass=LogicalType):
                 return annotation
 
         if annotation is Any:
+            if constraints:
+                # a: Any = Field(const=5): any type, but the declared constraints still hold
+                return cls.annotate(
+                    None,
+                    constraints=constraints,
+                    forward_refs=forward_refs,
+                    global_vars=global_vars,
+                    force_clear_refs=force_clear_refs,
+                    bound=bound
+                )
             return Rule  # use empty rule as any
 
         # no constraints, we can directly use it
